@@ -17,7 +17,7 @@ import (
 func init() { Registry["C13"] = C13 }
 
 var c13Lines = []string{"  - test_id: 5", "test_id: abc", "  test_id:   7  ", "- test_title: 920100-3", "test_title: \"x\"", "desc: foo", "  data: x  ", "---", "# c", "", "   ",
-	"  - test_id: \"8\"", "\tdata: y\t", "  data: é\u00a0"}
+	"  - test_id: ", "  test_title:  \t", "  - test_id: \"8\"", "\tdata: y\t", "  data: é\u00a0"}
 
 type c13Variant struct {
 	CRLF     bool
